@@ -49,6 +49,12 @@ CHECKS['C17'] = ('E-NNPS', 'engines/e_nnps.py',
     'same trusted base as C01; neighbour-set violations without any re-ordering in the history are left to C01',
     'DESIGN.md section 3 E-NNPS / section 4 C17')
 
+CHECKS['C07'] = ('E-DOM', 'engines/e_dom.py',
+    'deterministic simulation (history dimension): seeded move / add / remove / add-property then update rounds on the compiled DomainManager with 1-3 arrays, checked after every update against a product model of periodic images and reflections',
+    'seeded search over boxes, per-axis periodic/mirror flags (incl. mixed), dims 1-3, n_layers, copied-property subsets (list and per-array dict), particles on faces / 1 ulp off / in corners / outside by < one period, variable h, several arrays, and histories of rounds; checks: wrapping, ghost set = product model (none missing, duplicated, misplaced), exact copies incl. typed/strided properties, reversed normal velocity for reflections, tags, real particles first and unchanged, no accumulation, every interacting image present. Sampling, not proof.',
+    'product model in engines/e_dom.py; layer boundary band 1e-12; periods >= 1.2 layers; images at one period only; layer may be as thick as stale ghosts of the previous update make it',
+    'DESIGN.md section 3 E-DOM')
+
 PENDING = {}
 
 
